@@ -134,7 +134,7 @@ func registerSgxEntries() {
 			return accepted(fp + vq.Identity.String())
 		},
 		Seeds: qSeeds,
-		Extra: func(s []byte, _ int) []mutant { return quoteFields(s) }})
+		Extra: func(s []byte, _ int) []mutant { return append(quoteFields(s), leConsistentTruncations(s, 0)...) }})
 
 	// SGX attestation as carried in node descriptors (IAS and PCS forms).
 	type attCase struct {
